@@ -6,6 +6,7 @@ import (
 	"strings"
 	"time"
 
+	"go.uber.org/zap"
 	"go.uber.org/zap/zapcore"
 
 	"verif/zsim"
@@ -39,6 +40,12 @@ type c11core struct {
 	w      *c11world
 	fields int
 }
+
+// c11fixed: a clock that stamps every entry of one logger with one time.
+type c11fixed struct{ t time.Time }
+
+func (k c11fixed) Now() time.Time                         { return k.t }
+func (k c11fixed) NewTicker(d time.Duration) *time.Ticker { return time.NewTicker(d) }
 
 type c11world struct {
 	c       *Ctx
@@ -160,6 +167,10 @@ func runC11(c *Ctx) {
 		rec := &w.recs[c11id(e)]
 		rec.hook++
 		rec.decision = d
+	}
+	viaLogger := g.Chance(4)
+	if viaLogger {
+		c.Describe("entries are logged through a zap.Logger over the sampler")
 	}
 	// the sampler is built by either constructor: with a decision hook, by
 	// NewSamplerWithOptions without options, or by the older NewSampler; without
@@ -389,6 +400,14 @@ func runC11(c *Ctx) {
 		core := sampler
 		if e.child {
 			core = child
+		}
+		if viaLogger {
+			// the way applications reach a sampler: through a Logger over it (its
+			// clock stamps the entry; terminal actions replaced by hooks that
+			// return, so that Panic and Fatal entries can be repeated)
+			lg := zap.New(core, zap.WithClock(c11fixed{e.t}), zap.WithPanicHook(c06quiet{}), zap.WithFatalHook(c06quiet{})).Named(fmt.Sprint(e.id))
+			lg.Log(e.lvl, c11msgs[e.msg])
+			return
 		}
 		ent := zapcore.Entry{Level: e.lvl, Message: c11msgs[e.msg], Time: e.t, LoggerName: fmt.Sprint(e.id)}
 		if ce := core.Check(ent, nil); ce != nil {
